@@ -1,6 +1,6 @@
 """C19 — Report text faithfully carries the computed values."""
 from checks.zcommon import *
-import stage_rep
+import stage_rep, stage_topo
 
 def run(tier, seed):
     chk = Check('C19', tier, seed)
@@ -12,11 +12,12 @@ def run(tier, seed):
     chk.assumptions = ["CPython's '% .Nf' and '% e' are correctly rounded (round-half-even on the exact binary value); np.log by Base/FloatLib.v",
                        'the character-level reader of Proofs/FormatT.v is proved to return rep_value on every rendered text and is compared with Python on the real texts; '
                        'PARTIAL: magnitude / phase agreement and the use of the formatter by each table are checked by the oracle on real reports']
-    standard_front(chk, 'Props/C19.v', needs_items=('nf_peak',), extra_vo=('Proofs/PeakP.v', 'Model/Env.v', 'Proofs/EnvP.v', 'Model/Format.v', 'Proofs/FormatP.v', 'Proofs/FormatR.v', 'Proofs/FormatT.v', 'Proofs/ReportS.v', 'Corr/FmtDriver.v'))
+    standard_front(chk, 'Props/C19.v', needs_items=('nf_peak',), extra_vo=('Proofs/PeakP.v', 'Model/Env.v', 'Proofs/EnvP.v', 'Model/Conn.v', 'Proofs/ConnP.v', 'Corr/TopoDriver.v', 'Model/Format.v', 'Proofs/FormatP.v', 'Proofs/FormatR.v', 'Proofs/FormatT.v', 'Proofs/ReportS.v', 'Corr/FmtDriver.v'))
     rng = random.Random(seed)
     q = tier == 'quick'
     stage_rep.run_fmt(chk, rng, 4000 if q else 240000)
     stage_rep.run_env(chk, random.Random(seed + 19), 60 if q else 2000)
+    stage_topo.run_conn(chk, random.Random(seed + 191), 60 if q else 1500)
     cases = [dict(id=i, seed=rng.randrange(10 ** 9), spec=gen.gen_antenna(rng, ground=rng.choice((None, 'ideal', 'real'))))
              for i in range(48 if q else 1920)]
     shards = [cases[k::NCPU] for k in range(NCPU) if cases[k::NCPU]]
